@@ -40,7 +40,7 @@ TOL = 1e-9
 def feats(prog):
     f = P.features(prog)
     lab = ['pops=%d' % f['max_pops']]
-    for k in ('true_split', 'mig', 'pulse', 'growth', 'admix', 'merge', 'remove'):
+    for k in ('true_split', 'mig', 'symmig', 'long_epoch', 'pulse', 'growth', 'admix', 'merge', 'remove'):
         if f[k]:
             lab.append(k)
     if f['ancient']:
@@ -321,6 +321,59 @@ def r5(case, rec):
         m = ~np.ma.getmaskarray(fs_n)
         require_close(data(fs_s)[m], data(fs_n)[m], TOL, 'spectrum of the graph swiped at %.6g vs the native program started from equilibrium there [%s]'
                       % (tg, ' '.join(lab)), rec, key='swiped')
+
+
+@st.composite
+def multisplit_case(draw):
+    k = draw(st.integers(3, 5))
+    # parents[j] = index of the axis that the (j+2)-th population is split from, all at the same instant
+    parents = [draw(st.integers(0, j)) for j in range(1, k - 1)]
+    return dict(k=k, parents=parents, nus=[draw(st.sampled_from([0.4, 0.8, 1.5, 2.5, 3.5])) for _ in range(k)], T0=draw(st.sampled_from([0.0, 0.03])),
+                T=draw(st.sampled_from([0.02, 0.05])), pts=draw(st.integers(8, 10)) if k == 5 else draw(st.integers(9, 12)),
+                mapping=draw(st.booleans()), gt=draw(st.sampled_from([None, 25.0])))
+
+
+@REG.relation('R7-export-simultaneous-splits', strategy=multisplit_case, quick=(96, 16), thorough=(1500, 16))
+def r7(case, rec):
+    """A model that splits several times at the same instant (no integration in between, so that intermediate populations never
+    have an epoch of their own) exports to a graph whose spectrum is the model's; renaming demes through deme_mapping changes
+    nothing but the names."""
+    from dadi import Integration, PhiManip, Numerics
+    k, pts = case['k'], case['pts']
+    xx = Numerics.default_grid(pts)
+    rec.case(case, True, ['k=%d' % k, 'mapping' if case['mapping'] else 'default-names', 'years' if case['gt'] else 'generations'])
+    with dadi_call('native model with simultaneous splits'):
+        phi = PhiManip.phi_1D(xx)
+        if case['T0'] > 0:
+            phi = Integration.one_pop(phi, xx, case['T0'], nu=1.7)
+        phi = PhiManip.phi_1D_to_2D(xx, phi)
+        for j, p in enumerate(case['parents']):
+            nd = j + 2
+            if nd == 2:
+                phi = [PhiManip.phi_2D_to_3D_split_1, PhiManip.phi_2D_to_3D_split_2][p](xx, phi)
+            elif nd == 3:
+                pr = [1.0 if i == p else 0.0 for i in range(3)]
+                phi = PhiManip.phi_3D_to_4D(phi, pr[0], pr[1], xx, xx, xx, xx)
+            else:
+                pr = [1.0 if i == p else 0.0 for i in range(4)]
+                phi = PhiManip.phi_4D_to_5D(phi, pr[0], pr[1], pr[2], xx, xx, xx, xx, xx)
+        kw = {'nu%d' % (i + 1): case['nus'][i] for i in range(k)}
+        f = {3: Integration.three_pops, 4: Integration.four_pops, 5: Integration.five_pops}[k]
+        phi = f(phi, xx, case['T'], **kw)
+        fs_n = dadi.Spectrum.from_phi(phi, [2] * k, [xx] * k)
+    with dadi_call('Demes.output', stage='output'):
+        g = dadi.Demes.output(Nref=1000.0, generation_time=case['gt'])
+        ids = list(dadi.Demes.cache[-1].deme_ids)
+        if case['mapping']:
+            mapping = {'final%d' % i: [ids[i]] for i in range(0, k, 2)}
+            g2 = dadi.Demes.output(Nref=1000.0, generation_time=case['gt'], deme_mapping=mapping)
+            ids = [('final%d' % i) if i % 2 == 0 else ids[i] for i in range(k)]
+            g = g2
+    with dadi_call('spectrum of the exported graph', stage='reimport'):
+        fs_d = dadi.Demes.SFS(g, ids, [2] * k, pts)
+    m = ~np.ma.getmaskarray(fs_n)
+    require_close(data(fs_d)[m], data(fs_n)[m], 1e-6, 'exported graph of a model with %d simultaneous splits (parents %r) vs the model' % (k - 1, case['parents']),
+                  rec, key='simultaneous splits')
 
 
 YAMLS = sorted(glob.glob(os.path.join(REPO, 'tests', 'demes', '*.yaml')))
